@@ -74,6 +74,11 @@ PTL = mk.class_src('Ptl', ['x = Int(1)', 'tags = Int(1).repeated(2, default=[7, 
 # the program keeps a handle on the packet it declared as prototype and goes on using (changing) it
 scen('origin-local-list', lambda o: PTL + 'proto = Ptl(x=5)\n' + mk.class_src('K', ['z = Int(1)', 'l = Ref(Ptl).repeated(1, default=[proto])', 'a = Ref(proto).when(z)'], o),
      [b'\x01\x02\x03\x04\x05\x06\x07', b'\x00\x00\x00\x00', b'\x00\x09\x08\x07'], [{}, {'z': 1}], local=True, tags=['origin'])
+scen('shared-table-two-confs',
+     lambda o: 'TABLE = {1: Int(2), 2: Int(4), 3: Data(until_marker=b"ab")}\n' +
+     mk.class_src('K', ['w = Int(1)', 'v = Ref(w.chooses(TABLE), default=0)', 'z = Int(1)'], dict(o or {}, endianness='little', search_buffer_length=4)) +
+     mk.class_src('K2', ['h = Int(1)', 'w = Int(1)', 'v = Ref(w.chooses(TABLE), default=0)'], o),
+     [b'\x01\x01\x02\x09', b'\x02\x01\x02\x03\x04\x09', b'\x03xyab\x09'], [{}, {'w': 1, 'v': 0x0102}])
 scen('expr', lambda o: mk.class_src('K', ['p = Int(1)', 'n = Int(1)', 'x = Int(1)', 'd = Data(p + (n + x))', 'l = Int(1).repeated((n * 2) - x, when=(p + n) > x)', 'z = Int(1)'], o),
      [b'\x01\x01\x01ABC\x05\x09', b'\x00\x02\x00XY\x01\x02\x03\x04\x07', b'\x00\x00\x00\x08'], [{}, {'p': 1, 'd': b'q'}])
 scen('positioned', lambda o: mk.class_src('K', ['n = Int(1)', 'd = Data(2).at(n)', 'e = Em().aligned(4)'], o),
@@ -337,6 +342,46 @@ def run_history(mod, sc, hist, classes):
     return None, (tuple(S), tuple(B)), trans
 
 
+def project(hist, sc, cname):
+    """the operations of hist that concern packets of class cname only, with the packet indices renumbered"""
+    owner = []          # class of each live packet of the full history
+    out = []
+    for op in hist:
+        if op[0] in ('new', 'unpack'):
+            if len(owner) >= 3:
+                continue
+            owner.append(op[1])
+            if op[1] == cname:
+                out.append(op)
+        elif op[0] == 'origin':
+            out.append(op)
+        else:
+            slot = op[1]
+            if slot < len(owner) and owner[slot] == cname:
+                out.append((op[0], sum(1 for c in owner[:slot] if c == cname)))
+    return out, [i for i, c in enumerate(owner) if c == cname]
+
+
+def check_projection(scname, gen, sc, hist, classes, canon):
+    """non-interference across classes: what the packets of ONE class read and pack as at the end of the history is what they read
+    and pack as when only the operations on that class' packets are carried out (on freshly defined classes)"""
+    for cname in classes:
+        sub, slots = project(hist, sc, cname)
+        if not slots or len(sub) == len([op for op in hist]):
+            continue
+        with mk.World() as w:
+            mod2, classes2, _ = define(scname, gen, w)
+            err, canon2, _ = run_history(mod2, sc, sub, classes2)
+        if err or canon2 is None:
+            continue
+        full = [(canon[0][i], canon[1][i]) for i in slots]
+        alone = list(zip(canon2[0], canon2[1]))
+        if full != alone:
+            return {'sig': 'packets of one class depend on what happened to another class',
+                    'what': 'the %s packets end as %r; with only the operations on %s packets carried out %r they end as %r' % (cname, full, cname, sub, alone)}
+    return None
+
+
 def narrow(scname, err):
     """mechanism signature; the regex-delimiter-not-kept leak gets its own narrow one"""
     sig = '%s: %s' % (scname, err['sig'])
@@ -421,6 +466,8 @@ def _shard(shard, nshards, payload):
                         if quiet is not None and quiet != canon[0]:
                             err = {'sig': 'an earlier pack() changes later observations',
                                    'what': 'the packets read %r, after the same operations without any pack() call they read %r' % (canon[0], quiet)}
+                    if not err and canon is not None and len(classes) > 1 and len(hist) >= 2:
+                        err = check_projection(scname, gen, sc, hist, classes, canon)
                     if err:
                         st.violate(narrow(scname, err), '%s (generated=%s) history %r: %s' % (scname, gen, list(hist), err['what']),
                                    {'scenario': scname, 'gen': gen, 'hist': [list(o) for o in hist]}, snippet(scname, gen, hist))
@@ -467,6 +514,8 @@ def replay(case):
     with mk.World() as w:
         mod, classes, _ = define(case['scenario'], case['gen'], w)
         err, canon, _ = run_history(mod, sc, hist, classes)
+    if not err and canon is not None and len(classes) > 1 and len(hist) >= 2:
+        err = check_projection(case['scenario'], case['gen'], sc, hist, classes, canon)
     if not err and quiet is not None and canon is not None and quiet != canon[0]:
         err = {'sig': 'an earlier pack() changes later observations', 'what': 'with packs %r, without any pack %r' % (canon[0], quiet)}
     return [{'sig': narrow(case['scenario'], err), 'what': err['what']}] if err else []
